@@ -1063,15 +1063,17 @@ theorem unl_layX : ∀ (l : List (Str × XTok)) (c : Ctx) (tail : Str), okX c l 
 
 /-- a gap in front of something solid stays a gap, stays non-empty, keeps a leading line feed -/
 theorem rts_gap' {s : Str} (hs : C01.blankHead s = false) : ∀ g : Str, g.all isWs = true →
-    ∃ g', g'.all isWs = true ∧ (g ≠ [] → g' ≠ []) ∧ (g.head? = some '\n' → g'.head? = some '\n') ∧
+    ∃ g', g'.all isWs = true ∧ (g ≠ [] → g' ≠ []) ∧ (g.head? = some '\n' → g'.head? = some '\n') ∧ (g = [] → g' = []) ∧
       C01.rts (g ++ s) = g' ++ C01.rts s
-  | [], _ => ⟨[], rfl, fun h => h, fun h => h, rfl⟩
+  | [], _ => ⟨[], rfl, fun h => h, fun h => h, fun _ => rfl, rfl⟩
   | c :: g, h => by
     simp only [List.all_cons, Bool.and_eq_true] at h
-    obtain ⟨g', hg', hne, _, e⟩ := rts_gap' hs g h.2
+    obtain ⟨g', hg', hne, _, _, e⟩ := rts_gap' hs g h.2
+    have hnil : c :: g = [] → False := fun e => by cases e
     by_cases hc : c = '\n'
     · subst hc
-      exact ⟨'\n' :: g', by simp [hg', C01.isWs_nl], fun _ => by simp, fun _ => rfl, by simp [C01.rts_nl, e]⟩
+      exact ⟨'\n' :: g', by simp [hg', C01.isWs_nl], fun _ => by simp, fun _ => rfl, fun e => (hnil e).elim,
+        by simp [C01.rts_nl, e]⟩
     · have hnl : (c :: g).head? = some '\n' → False := by
         simp only [List.head?_cons, Option.some.injEq]; exact hc
       simp only [List.cons_append]
@@ -1079,40 +1081,49 @@ theorem rts_gap' {s : Str} (hs : C01.blankHead s = false) : ∀ g : Str, g.all i
       split
       · next hb =>
         simp only [Bool.and_eq_true] at hb
-        refine ⟨g', hg', fun _ => hne ?_, fun h' => (hnl h').elim, rfl⟩
+        refine ⟨g', hg', fun _ => hne ?_, fun h' => (hnl h').elim, fun e => (hnil e).elim, rfl⟩
         rintro rfl
         rw [List.nil_append, hs] at hb
         exact absurd hb.2 (by simp)
-      · exact ⟨c :: g', by simp [hg', h.1], fun _ => by simp, fun h' => (hnl h').elim, rfl⟩
+      · exact ⟨c :: g', by simp [hg', h.1], fun _ => by simp, fun h' => (hnl h').elim, fun e => (hnil e).elim, rfl⟩
 
-/-- the trailing-space removal changes the gaps only -/
+/-- the trailing-space removal changes the gaps only (an empty first gap stays empty) -/
 theorem rts_layX : ∀ (l : List (Str × XTok)) (c : Ctx) (tail : Str), okX c l = true → (∀ p ∈ l, Solid p.2.text) →
-    ∃ l', C01.rts (layX l tail) = layX l' (C01.rts tail) ∧ l'.map Prod.snd = l.map Prod.snd ∧ okX c l' = true
-  | [], _, _, _, _ => ⟨[], rfl, rfl, rfl⟩
+    ∃ l', C01.rts (layX l tail) = layX l' (C01.rts tail) ∧ l'.map Prod.snd = l.map Prod.snd ∧ okX c l' = true ∧
+      (∀ t r, l = ([], t) :: r → ∃ r', l' = ([], t) :: r')
+  | [], _, _, _, _ => ⟨[], rfl, rfl, rfl, fun _ _ e => by cases e⟩
   | (g, t) :: l, c, tail, ok, hs => by
     simp only [okX, Bool.and_eq_true] at ok
-    obtain ⟨l', e, hm, ok'⟩ := rts_layX l (ctxAfter t) tail ok.2 (fun p hp => hs p (List.mem_cons_of_mem _ hp))
+    obtain ⟨l', e, hm, ok', _⟩ := rts_layX l (ctxAfter t) tail ok.2 (fun p hp => hs p (List.mem_cons_of_mem _ hp))
     have hsol := solid_rts (hs (g, t) List.mem_cons_self) (layX l tail)
-    obtain ⟨g', hg', hne, hnl, eg⟩ := rts_gap' hsol.2 g ok.1.1
-    refine ⟨(g', t) :: l', ?_, by simp [hm], ?_⟩
+    obtain ⟨g', hg', hne, hnl, hnil, eg⟩ := rts_gap' hsol.2 g ok.1.1
+    refine ⟨(g', t) :: l', ?_, by simp [hm], ?_, ?_⟩
     · simp only [layX, List.append_assoc]
       rw [eg, hsol.1, e]
     · simp only [okX, Bool.and_eq_true]
       exact ⟨⟨hg', gapOK_map ok.1.2 hne hnl⟩, ok'⟩
+    · intro t2 r2 e2
+      simp only [List.cons.injEq, Prod.mk.injEq] at e2
+      obtain ⟨⟨rfl, rfl⟩, _⟩ := e2
+      exact ⟨l', by rw [hnil rfl]⟩
 
 /-- **`remove_trailing_spaces` keeps the layout** when every token text is solid -/
 theorem removeTrailing_layX (l : List (Str × XTok)) (c : Ctx) (ok : okX c l = true) (hs : ∀ p ∈ l, Solid p.2.text) :
-    ∃ l', removeTrailingSpaces (layX l ['\n']) = layX l' ['\n'] ∧ l'.map Prod.snd = l.map Prod.snd ∧ okX c l' = true := by
+    ∃ l', removeTrailingSpaces (layX l ['\n']) = layX l' ['\n'] ∧ l'.map Prod.snd = l.map Prod.snd ∧ okX c l' = true ∧
+      (∀ t r, l = ([], t) :: r → ∃ r', l' = ([], t) :: r') := by
   obtain ⟨e1, ok1⟩ := unl_layX l c ['\n'] ok hs
   have hs1 : ∀ p ∈ l.map (fun p => (universalNl p.1, p.2)), Solid p.2.text := by
     intro p hp
     obtain ⟨q, hq, rfl⟩ := List.mem_map.mp hp
     exact hs q hq
-  obtain ⟨l', e2, hm, ok2⟩ := rts_layX _ c (universalNl ['\n']) ok1 hs1
-  refine ⟨l', ?_, by rw [hm]; simp, ok2⟩
-  rw [C01.removeTrailingSpaces_eq, e1, e2]
-  have : C01.rts (universalNl ['\n']) = ['\n'] := by decide
-  rw [this]
+  obtain ⟨l', e2, hm, ok2, hfirst⟩ := rts_layX _ c (universalNl ['\n']) ok1 hs1
+  refine ⟨l', ?_, by rw [hm]; simp, ok2, ?_⟩
+  · rw [C01.removeTrailingSpaces_eq, e1, e2]
+    have : C01.rts (universalNl ['\n']) = ['\n'] := by decide
+    rw [this]
+  · intro t r e
+    subst e
+    exact hfirst t (r.map fun p => (universalNl p.1, p.2)) rfl
 
 /-! ## 6. the tokens of the raw output; the document that is written -/
 
@@ -1637,5 +1648,268 @@ theorem substTokT_blockTbl {i0 : Nat} {t0 : Str} {B : Tbl Str} {t : XTok} (h : i
         have : ¬ j = i0 := by simpa [isPhX] using h
         exact fun e => this e.symm
       simp [substTokT, blockTbl, Tbl.get?, hj]
+
+/-! ## 10. the writer on an SDict with comments -/
+
+def ownHeader (B : Tbl Str) : Bool :=
+  match B with
+  | (_, t) :: _ => containsCpp t
+  | [] => false
+
+/-- the default header, when the first block comment is no header of its own -/
+def hdrToks (B : Tbl Str) : List XTok := if ownHeader B then [] else [.cmt false C12.hdrComment]
+def hdrItems (B : Tbl Str) : List CItem := if ownHeader B then [] else [.blockC C12.hdrBody]
+
+/-- the first block comment of the table stands first in the (hoisted) top level, and only there -/
+def FirstOK (B : Tbl Str) (xs : List XTok) : Prop :=
+  match B with
+  | [] => True
+  | (i0, _) :: _ => ∃ pad r, xs = .ph false i0 pad :: r ∧ ∀ t ∈ r, isPhX false i0 t = false
+
+theorem tokInv_of_xok {L B : Tbl Str} {t : XTok} (h : XOK L B t) : TokInv t := by
+  cases t with
+  | tok s => exact noPh_of_noComment (C12.tok_noComment h).1
+  | cmt l f => exact h.elim
+  | ph l i pad => exact ⟨h.1, h.2.1, h.2.2.1⟩
+
+theorem any_map_snd (lay : List (Str × XTok)) (p : XTok → Bool) :
+    (lay.any fun q => p q.2) = (lay.map Prod.snd).any p := by
+  induction lay with
+  | nil => rfl
+  | cons q lay ih => simp [ih]
+
+theorem nativeHeader_lay (s : Str) : nativeHeader ++ s = C12.hdrComment ++ ('\n' :: s) := by
+  rw [C12.nativeHeader_split]; simp
+
+theorem block_stage (L B : Tbl Str) (D : Entries) (hsh : wshEs 1 D = true) (hcov : phCov L B D = true)
+    (hB : ∀ e ∈ B, e.1 ≤ 999999 ∧ BlockFull e.2) (hnd : (B.map (·.1)).Nodup)
+    (hpres : ∀ e ∈ B, ((xtoksEs 0 D).any fun t => isPhX false e.1 t) = true)
+    (hfirst : FirstOK B (xtoksEs 0 D)) (hind : indepFrom [] ((blockTbl B).map (·.2)) = true) :
+    ∃ t r, ((([] : Str), t) :: r).map Prod.snd = hdrToks B ++ (xtoksEs 0 D).map (substTokT false B) ∧
+      insertBlockComments .native B (fmtEntries .native 0 D) = layX (([], t) :: r) ['\n'] ∧
+      okX .cov (([], t) :: r) = true := by
+  by_cases hD : D = []
+  · subst hD
+    cases B with
+    | cons e B' => have := hpres e List.mem_cons_self; simp [xtoksEs] at this
+    | nil =>
+      refine ⟨.cmt false C12.hdrComment, [], by simp [hdrToks, ownHeader, xtoksEs], ?_, by simp [okX, gapOK]⟩
+      rw [C12.C12_header_default]
+      simp [fmtEntries, layX, XTok.text, C12.nativeHeader_split]
+  · obtain ⟨t0, r0, hm, hraw, ok⟩ := raw_layout hsh hD
+    have hxok := xtoks_ok L B 1 0 D hsh hcov
+    simp only [okX, Bool.and_eq_true] at ok
+    cases B with
+    | nil =>
+      refine ⟨.cmt false C12.hdrComment, (['\n'], t0) :: r0, ?_, ?_, ?_⟩
+      · simp only [List.map_cons] at hm
+        simp [hdrToks, ownHeader, ← hm, substTokT_nil]
+      · rw [C12.C12_header_default, hraw, nativeHeader_lay]
+        simp [layX, XTok.text]
+      · simp only [okX, Bool.and_eq_true, gapOK_nl, and_true]
+        exact ⟨⟨rfl, rfl⟩, ⟨by decide, ok.2⟩⟩
+    | cons e B' =>
+      obtain ⟨i0, t0'⟩ := e
+      obtain ⟨pad, rx, hxs, huniq⟩ := hfirst
+      simp only [List.map_cons] at hm
+      rw [hxs] at hm
+      simp only [List.cons.injEq] at hm
+      obtain ⟨ht0, hr0⟩ := hm
+      subst ht0
+      have hinv : ∀ p ∈ (([] : Str), XTok.ph false i0 pad) :: r0, TokInv p.2 := by
+        intro p hp
+        apply tokInv_of_xok (L := L) (B := (i0, t0') :: B')
+        apply hxok
+        rw [hxs, ← hr0]
+        rcases List.mem_cons.mp hp with rfl | hp
+        · exact List.mem_cons_self
+        · exact List.mem_cons_of_mem _ (List.mem_map_of_mem hp)
+      have hhdr : NoPh (makeDefaultBlockComment .native t0') := by
+        have h0 := (hB (i0, t0') List.mem_cons_self).2
+        obtain ⟨_, _, _, _, _, hno⟩ := h0
+        rw [C12.makeDefault_native]
+        split
+        · exact hno
+        · exact noPh_hdr_append hno
+      have hins := insertBlock_layX (i0, t0') B' (([], XTok.ph false i0 pad) :: r0) .cov ['\n']
+        (by simp only [okX, Bool.and_eq_true]; exact ok) (by decide) hinv
+        (by
+          intro e' he'
+          have h1 := hB e' he'
+          obtain ⟨_, _, _, _, _, hno⟩ := h1.2
+          refine ⟨h1.1, hno, ?_⟩
+          rw [any_map_snd]
+          simp only [List.map_cons, hr0, ← hxs]
+          exact hpres e' he')
+        hhdr hnd hind
+      rw [hraw, hins]
+      -- the layout after the pass: the completed first comment, the rest substituted from the table itself
+      have hrest : r0.map (fun p => (p.1, substTokT false (blockTbl ((i0, t0') :: B')) p.2)) =
+          r0.map (fun p => (p.1, substTokT false ((i0, t0') :: B') p.2)) := by
+        apply List.map_congr_left
+        intro p hp
+        rw [substTokT_blockTbl (huniq p.2 (by rw [← hr0]; exact List.mem_map_of_mem hp))]
+      have hhead : substTokT false (blockTbl ((i0, t0') :: B')) (XTok.ph false i0 pad) =
+          .cmt false (makeDefaultBlockComment .native t0') := by
+        simp [substTokT, blockTbl, Tbl.get?]
+      have hhead' : substTokT false ((i0, t0') :: B') (XTok.ph false i0 pad) = .cmt false t0' := by
+        simp [substTokT, Tbl.get?]
+      have okr : okX .bk (r0.map fun p => (p.1, substTokT false ((i0, t0') :: B') p.2)) = true := by
+        rw [okX_mapT]; exact ok.2
+      simp only [List.map_cons, hhead, hrest]
+      by_cases hcpp : containsCpp t0' = true
+      · refine ⟨.cmt false t0', r0.map (fun p => (p.1, substTokT false ((i0, t0') :: B') p.2)), ?_, ?_, ?_⟩
+        · simp [hdrToks, ownHeader, hcpp, hxs, hhead', ← hr0, List.map_map, Function.comp]
+        · rw [C12.makeDefault_native, if_pos hcpp]
+        · simp only [okX, Bool.and_eq_true]
+          exact ⟨⟨rfl, rfl⟩, okr⟩
+      · refine ⟨.cmt false C12.hdrComment,
+          (['\n'], .cmt false t0') :: r0.map (fun p => (p.1, substTokT false ((i0, t0') :: B') p.2)), ?_, ?_, ?_⟩
+        · simp [hdrToks, ownHeader, hcpp, hxs, hhead', ← hr0, List.map_map, Function.comp]
+        · rw [C12.makeDefault_native, if_neg hcpp]
+          simp only [layX, XTok.text, List.nil_append]
+          rw [List.append_assoc, nativeHeader_lay]
+          simp
+        · simp only [okX, Bool.and_eq_true, gapOK_nl, and_true]
+          exact ⟨⟨rfl, rfl⟩, ⟨by decide, okr⟩⟩
+
+/-- the hypotheses of the writer theorem on an SDict -/
+structure WOK (sd : SD) : Prop where
+  shape : wshEs 1 (hoistPlaceholders sd.data) = true
+  cov : phCov sd.lineC sd.blockC (hoistPlaceholders sd.data) = true
+  lineT : ∀ e ∈ sd.lineC, e.1 ≤ 999999 ∧ LineFull e.2
+  blockT : ∀ e ∈ sd.blockC, e.1 ≤ 999999 ∧ BlockFull e.2
+  bNodup : (sd.blockC.map (·.1)).Nodup
+  bPres : ∀ e ∈ sd.blockC, ((xtoksEs 0 (hoistPlaceholders sd.data)).any fun t => isPhX false e.1 t) = true
+  first : FirstOK sd.blockC (xtoksEs 0 (hoistPlaceholders sd.data))
+  indep : indepFrom [] ((blockTbl sd.blockC).map (·.2)) = true
+  incl : sd.incl = []
+
+/-- the commented document the writer writes for an SDict: the default header unless the first block comment is a
+    header, then the (hoisted) top level with every placeholder entry replaced by its comment -/
+def docSD (sd : SD) : List CItem :=
+  hdrItems sd.blockC ++ docEs sd.lineC sd.blockC (hoistPlaceholders sd.data)
+
+/-- a token of the raw output after the block-comment pass -/
+theorem tokInv_stage1 {L B : Tbl Str} (hB : ∀ e ∈ B, e.1 ≤ 999999 ∧ BlockFull e.2) {x : XTok} (hx : XOK L B x) :
+    TokInv (substTokT false B x) := by
+  cases x with
+  | tok s => exact tokInv_of_xok hx
+  | cmt l f => exact hx.elim
+  | ph l i pad =>
+    cases l with
+    | true => exact ⟨hx.1, hx.2.1, hx.2.2.1⟩
+    | false =>
+      obtain ⟨txt, ht⟩ := Option.isSome_iff_exists.mp hx.2.2.2
+      simp only [Bool.false_eq_true, if_false] at ht
+      simp only [substTokT, if_true, ht]
+      obtain ⟨_, _, _, _, _, hno⟩ := (hB _ (tbl_get_mem ht)).2
+      exact hno
+
+/-- a token of the raw output after both passes: solid, and a token of a commented document -/
+theorem final_tok_facts {L B : Tbl Str} (hL : ∀ e ∈ L, e.1 ≤ 999999 ∧ LineFull e.2)
+    (hB : ∀ e ∈ B, e.1 ≤ 999999 ∧ BlockFull e.2) {x : XTok} (hx : XOK L B x) :
+    Solid (finalTok L B x).text ∧ WellC (finalTok L B x) := by
+  cases x with
+  | tok s => exact ⟨solid_of_good (tokGood_of_ok hx), trivial⟩
+  | cmt l f => exact hx.elim
+  | ph l i pad =>
+    obtain ⟨txt, ht⟩ := Option.isSome_iff_exists.mp hx.2.2.2
+    cases l with
+    | true =>
+      simp only [if_true] at ht
+      have : finalTok L B (.ph true i pad) = .cmt true txt := by simp [finalTok, substTokT, ht]
+      rw [this]
+      exact ⟨solid_line (hL _ (tbl_get_mem ht)).2, wellC_line (hL _ (tbl_get_mem ht)).2⟩
+    | false =>
+      simp only [Bool.false_eq_true, if_false] at ht
+      have : finalTok L B (.ph false i pad) = .cmt false txt := by simp [finalTok, substTokT, ht]
+      rw [this]
+      exact ⟨solid_block (hB _ (tbl_get_mem ht)).2, wellC_block (hB _ (tbl_get_mem ht)).2⟩
+
+theorem toC_hdr : toC (.cmt false C12.hdrComment) = .blockC C12.hdrBody := by
+  have : C12.hdrComment = '/' :: '*' :: C12.hdrBody ++ ['*', '/'] := C12.hdrComment_shape
+  simp only [toC]
+  rw [this, blockBody_eq]
+
+theorem ctoks_hdr (B : Tbl Str) (doc : List CItem) :
+    ctoksItems (hdrItems B ++ doc) = (hdrToks B).map toC ++ ctoksItems doc := by
+  simp only [hdrItems, hdrToks]
+  split
+  · rfl
+  · simp only [List.singleton_append, ctoksItems, List.map_cons, List.map_nil, toC_hdr]
+
+/-- **the writer on an SDict with comments** (generic form of M3): the text is a layout of the document `docSD sd`
+    that starts with its first token; with a line feed put in front, the layout is admissible (`GapsOKC`) -/
+theorem write_commented (sd : SD) (h : WOK sd) :
+    ∃ gaps, fmtSD .native sd = some (spreadC (ctoksItems (docSD sd)) ([] :: gaps) ['\n']) ∧
+      GapsOKC (ctoksItems (docSD sd)) (['\n'] :: gaps) ['\n'] = true := by
+  obtain ⟨t1, r1, hm1, htxt1, ok1⟩ := block_stage sd.lineC sd.blockC (hoistPlaceholders sd.data) h.shape h.cov h.blockT
+    h.bNodup h.bPres h.first h.indep
+  have hxok := xtoks_ok sd.lineC sd.blockC 1 0 (hoistPlaceholders sd.data) h.shape h.cov
+  -- the tokens after the block pass
+  have hmem1 : ∀ p ∈ ([], t1) :: r1, p.2 = .cmt false C12.hdrComment ∨
+      ∃ x ∈ xtoksEs 0 (hoistPlaceholders sd.data), p.2 = substTokT false sd.blockC x := by
+    intro p hp
+    have : p.2 ∈ hdrToks sd.blockC ++ (xtoksEs 0 (hoistPlaceholders sd.data)).map (substTokT false sd.blockC) := by
+      rw [← hm1]; exact List.mem_map_of_mem hp
+    rcases List.mem_append.mp this with h' | h'
+    · left
+      simp only [hdrToks] at h'
+      split at h'
+      · cases h'
+      · simpa using h'
+    · right
+      obtain ⟨x, hx, e⟩ := List.mem_map.mp h'
+      exact ⟨x, hx, e.symm⟩
+  have hinv1 : ∀ p ∈ ([], t1) :: r1, TokInv p.2 := by
+    intro p hp
+    rcases hmem1 p hp with e | ⟨x, hx, e⟩
+    · rw [e]; exact noPh_of_noComment hdr_noComment
+    · rw [e]; exact tokInv_stage1 h.blockT (hxok x hx)
+  have hline := insertLine_layX sd.lineC (([], t1) :: r1) .cov ['\n'] ok1 (by decide) hinv1
+    (fun e he => ⟨(h.lineT e he).1, by obtain ⟨_, _, _, _, hno⟩ := (h.lineT e he).2; exact hno⟩)
+  -- the tokens after both passes
+  have hsol : ∀ p ∈ (([], t1) :: r1).map (fun p => (p.1, substTokT true sd.lineC p.2)),
+      Solid p.2.text ∧ WellC p.2 := by
+    intro p hp
+    obtain ⟨q, hq, rfl⟩ := List.mem_map.mp hp
+    rcases hmem1 q hq with e | ⟨x, hx, e⟩
+    · simp only [e, substTokT]
+      exact ⟨solid_block hdr_blockFull, wellC_block hdr_blockFull⟩
+    · simp only [e]
+      exact final_tok_facts h.lineT h.blockT (hxok x hx)
+  obtain ⟨l', hrts, hm', ok', hfirst'⟩ := removeTrailing_layX _ .cov (by rw [okX_mapT]; exact ok1)
+    (fun p hp => (hsol p hp).1)
+  obtain ⟨rf, hl'⟩ := hfirst' (substTokT true sd.lineC t1) (r1.map fun p => (p.1, substTokT true sd.lineC p.2)) rfl
+  have hw' : ∀ p ∈ l', WellC p.2 := by
+    intro p hp
+    have : p.2 ∈ ((([], t1) :: r1).map (fun p => (p.1, substTokT true sd.lineC p.2))).map Prod.snd := by
+      rw [← hm']; exact List.mem_map_of_mem hp
+    obtain ⟨q, hq, e⟩ := List.mem_map.mp this
+    rw [← e]; exact (hsol q hq).2
+  -- the tokens of the final text are the tokens of the document
+  have htoks : l'.map (fun p => toC p.2) = ctoksItems (docSD sd) := by
+    have e1 : l'.map (fun p => toC p.2) = (l'.map Prod.snd).map toC := by simp [List.map_map, Function.comp]
+    have hm2 : l'.map Prod.snd = (hdrToks sd.blockC ++
+        (xtoksEs 0 (hoistPlaceholders sd.data)).map (substTokT false sd.blockC)).map (substTokT true sd.lineC) := by
+      rw [hm', ← hm1]
+      simp [List.map_map, Function.comp]
+    rw [e1, hm2, docSD, ctoks_hdr, ctoks_doc sd.lineC sd.blockC 0 _ h.cov]
+    simp only [List.map_append, List.map_map]
+    congr 1
+    simp only [hdrToks]
+    split
+    · rfl
+    · simp [substTokT]
+  refine ⟨rf.map Prod.fst, ?_, ?_⟩
+  · have hfmt : fmtSD .native sd = some (removeTrailingSpaces (insertLineComments sd.lineC
+        (insertBlockComments .native sd.blockC (fmtEntries .native 0 (hoistPlaceholders sd.data))))) := by
+      simp only [fmtSD, h.incl, insertIncludes, List.foldl_nil]
+    rw [hfmt, htxt1, hline, hrts, layX_spreadC l' _ hw', htoks, hl']
+    rfl
+  · have := gapsOKC_top rf [] (substTokT true sd.lineC t1) (by rw [← hl']; exact ok') (by rw [← hl']; exact hw')
+    rw [← hl', htoks] at this
+    exact this
 
 end DictIO.C12W
